@@ -41,7 +41,7 @@ TR = 'chainables.transform'
 
 
 def run(ctx: Ctx):
-  for r in (r1, r2, r3, r4, r5, r6, r9, r11, r12, r13, r14, r15, r16, r17, r19):
+  for r in (r1, r2, r3, r4, r5, r6, r9, r11, r12, r13, r14, r15, r16, r17, r19, r20):
     ctx.guard(r)
   from mlmverif.props import c09
   ctx.include('R-C12-10', 'error skipping configured on a data source survives a'
@@ -1020,11 +1020,126 @@ def r19(ctx: Ctx):
   ctx.floor(rule, 8, n)
 
 
+def _eval3(t, env):
+  """Three-valued evaluation of a test under known boolean flags: True / False / None (unknown)."""
+  if isinstance(t, ast.Constant):
+    return bool(t.value)
+  if isinstance(t, ast.Name):
+    return env.get(t.id)
+  if isinstance(t, ast.UnaryOp) and isinstance(t.op, ast.Not):
+    v = _eval3(t.operand, env)
+    return None if v is None else not v
+  if isinstance(t, ast.BoolOp):
+    vals = [_eval3(v, env) for v in t.values]
+    if isinstance(t.op, ast.And):
+      return False if False in vals else (True if all(v is True for v in vals) else None)
+    return True if True in vals else (False if all(v is False for v in vals) else None)
+  return None
+
+
+def r20(ctx: Ctx):
+  rule = 'R-C12-20'
+  ctx.rule(rule, '"error skipping drops only failing elements": the ignore-and-continue branch of a producer loop is for failures'
+           ' of the ITERATOR. An exception raised while an already fetched element is handed over (put / async_put: a'
+           ' TimeoutError when the consumer is slower than the configured timeout) never reaches a `continue`: from the'
+           ' exceptional exits of the hand-over call no path (followed with the boolean flags the function sets — e.g.'
+           ' `fetched = True` after next()) leads to a `continue` statement. The element would be dropped silently and the'
+           ' stream would still end cleanly')
+  repo = ctx.repo
+  n = 0
+  for qn in ('IteratorQueue.enqueue_from_iterator', 'AsyncIteratorQueue.async_enqueue_from_iterator'):
+    fi = repo.func('utils.iter_utils', qn)
+    g = cfgm.cfg_of(fi.node)
+
+    def const_assign(nd):
+      a = nd.ast
+      if nd.kind == 'stmt' and isinstance(a, ast.Assign) and len(a.targets) == 1 and isinstance(a.targets[0], ast.Name) and isinstance(
+          a.value, ast.Constant) and isinstance(a.value.value, bool):
+        return a.targets[0].id, a.value.value
+      return None
+
+    def gen(nd, lab):
+      ca = const_assign(nd)
+      return [ca] if ca else []
+
+    def kill(nd, fact):
+      a = nd.ast
+      tg = []
+      if isinstance(a, ast.Assign):
+        tg = a.targets
+      elif isinstance(a, (ast.AugAssign, ast.AnnAssign)):
+        tg = [a.target]
+      return any(isinstance(y, ast.Name) and y.id == fact[0] for t in tg for y in ast.walk(t))
+
+    facts = cfgm.must_facts(g, gen, kill)
+    puts = [nd for nd in g.nodes if nd.kind in ('stmt', 'cond') and any(
+        isinstance(c, ast.Call) and unparse(c.func) in ('self.put', 'self.async_put', 'self._put_nowait', 'self.put_nowait')
+        for x in cfgm.node_exprs(nd) for c in ast.walk(x))]
+    if not puts:
+      raise AnalysisError(f'{rule}: {qn} no longer hands elements over with self.put / self.async_put')
+    for nd in puts:
+      n += 1
+      env0 = dict(facts.get(nd, ()))
+      seen = set()
+      work = [(h, tuple(sorted(env0.items()))) for h, lab in nd.succ if lab == 'exc']
+      hit = None
+      while work and hit is None:
+        cur, envt = work.pop()
+        if (cur, envt) in seen:
+          continue
+        seen.add((cur, envt))
+        env = dict(envt)
+        if isinstance(cur.ast, ast.Continue) and cur.kind == 'stmt':
+          hit = cur
+          break
+        ca = const_assign(cur)
+        if ca:
+          env[ca[0]] = ca[1]
+        elif cur.ast is not None and kill_any(cur, env):
+          env = {k: v for k, v in env.items() if not kill(cur, (k, v))}
+        v = _eval3(cur.ast, env) if cur.kind == 'cond' else None
+        for s_, lab in cur.succ:
+          if lab in ('close',):
+            continue
+          if cur.kind == 'cond' and v is not None and lab in ('true', 'false') and lab != ('true' if v else 'false'):
+            continue
+          if s_ in (g.exit_ret, g.exit_exc):
+            continue
+          if lab == 'cont':
+            hit = cur
+            break
+          work.append((s_, tuple(sorted(env.items()))))
+      what = f'{qn}: a failed hand-over of a fetched element is never skipped'
+      if hit is None:
+        ctx.ok(rule, fi, what, nd.ast)
+      else:
+        ctx.fail(rule, fi, what,
+                 f'an exception of `{nd.text()[:50]}` can reach `continue` (line {hit.lineno}) in {qn}: with error skipping on, a'
+                 ' put() that timed out (consumer slower than the timeout) is "ignored" like a failing record — the element'
+                 ' it was holding is dropped, the loop goes on and the stream ends cleanly with elements missing', node=hit.ast or nd.ast)
+  ctx.floor(rule, 2, n)
+
+
+def kill_any(nd, env) -> bool:
+  a = nd.ast
+  tg = a.targets if isinstance(a, ast.Assign) else [a.target] if isinstance(a, (ast.AugAssign, ast.AnnAssign)) else []
+  return any(isinstance(y, ast.Name) and y.id in env for t in tg for y in ast.walk(t))
+
+
 from mlmverif.selfcheck import B, OK  # noqa: E402
 
 _F = 'chainables/tree_fns.py'
 _U = 'utils/iter_utils.py'
 VARIANTS = [
+    B('revert-put-inside-the-skipping-try', 'utils/iter_utils.py',
+      "      fetched = False\n      try:\n        value = next(iterator)\n        fetched = True\n        self.put(value)",
+      "      try:\n        self.put(next(iterator))", 'R-C12-20',
+      extra=(('utils/iter_utils.py', "        if self.ignore_error and not fetched:", "        if self.ignore_error:"),)),
+    B('skip-flag-set-after-the-put', 'utils/iter_utils.py',
+      "        value = next(iterator)\n        fetched = True\n        self.put(value)", "        value = next(iterator)\n        self.put(value)\n        fetched = True", 'R-C12-20'),
+    OK('put-outside-the-skipping-try', 'utils/iter_utils.py',
+       "        value = next(iterator)\n        fetched = True\n        self.put(value)\n      except StopIteration as e:",
+       "        value = next(iterator)\n        fetched = True\n        self.put(value)\n        fetched = True\n      except StopIteration as e:"),
     B('sequence-iterator-recurses-over-skipped', 'chainables/io.py',
       '      while (result := next(self._it)) is _SKIPPED:\n        self._index += 1\n',
       '      result = next(self._it)\n      if result is _SKIPPED:\n        self._index += 1\n        return next(self)\n', 'R-C12-19'),
